@@ -57,10 +57,10 @@ C13_OPS = [
     "to_dict", "from_strings", "to_str_list", "parse", "write_file", "read_file", "tl_or", "tl_sub", "tl_and", "construct",
 ]
 # queries: named by C13's statement ("query"), not by its operation list; they run in C13 sessions too
-C13_QUERY_OPS = ["contains_behavior", "evaluate", "is_empty", "contains_environment", "contains_implementation", "vertices",
+C13_QUERY_OPS = ["compound_misc", "compound_file", "contains_behavior", "evaluate", "is_empty", "contains_environment", "contains_implementation", "vertices",
                  "compound_from_strings", "compound_merge", "compound_le", "c_eq", "tl_eq", "c_str"]
 # further public operations in C14's quantifier
-C14_EXTRA_OPS = ["contains_behavior", "evaluate", "is_empty", "compound_from_strings", "compound_merge", "compound_le",
+C14_EXTRA_OPS = ["compound_misc", "compound_file", "contains_behavior", "evaluate", "is_empty", "compound_from_strings", "compound_merge", "compound_le",
                  "vertices", "contains_environment", "contains_implementation", "validate_dict", "c_eq", "tl_eq", "c_str", "c_hash"]
 
 
@@ -154,6 +154,16 @@ def call(name: str, a: Dict[str, Any]) -> Any:  # noqa: WPS212, WPS231
         c1 = PolyhedralIoContractCompound.from_strings(**a["c1"])
         c2 = PolyhedralIoContractCompound.from_strings(**a["c2"])
         return [c1.a <= c2.a, c1.g <= c2.g]
+    if name == "compound_misc":
+        c1 = PolyhedralIoContractCompound.from_strings(**a["c1"])
+        c2 = PolyhedralIoContractCompound.from_strings(**a["c2"])
+        out = [c1.to_dict(), str(c1), c1 == c2, c1 == c1, c1.a.contains_behavior(a["behavior"]), c1.g.contains_behavior(a["behavior"])]
+        return out
+    if name == "compound_file":
+        c1 = PolyhedralIoContractCompound.from_strings(**a["c1"])
+        fileio.write_contracts_to_file([c1, a["self"]], ["k", "plain"], a["file_name"], False)
+        cs, names = fileio.read_contracts_from_file(a["file_name"])
+        return [cs[0].to_dict(), cs[1], names]
     if name == "vertices":
         import pacti.terms.polyhedra.polyhedra as _pl  # noqa: WPS433
         import pacti.utils.plots as plots  # noqa: WPS433
@@ -715,14 +725,15 @@ def gen_step(rs, view: View, allowed_ops: List[str], weights: Optional[Dict[str,
     elif name in ("contains_environment", "contains_implementation"):
         A["self"] = {"slot": ci}
         A["component"] = {"slot": li}
-    elif name in ("compound_from_strings", "compound_merge", "compound_le"):
+    elif name in ("compound_from_strings", "compound_merge", "compound_le", "compound_misc", "compound_file"):
         def comp():  # noqa: WPS430
             iv = rs.choice(NAMES[:3])
             ov = rs.choice(NAMES[3:6])
             cuts = sorted(rs.sample([0, 1, 2, 3, 4, 5, 6], rs.choice([2, 3, 4])))
             a = []
             for lo, hi in zip(cuts, cuts[1:]):
-                gap = rs.choice([0, 0.5]) if rs.random() < 0.8 else -0.5
+                r_gap = rs.random()
+                gap = rs.choice([0.5, 0.25]) if r_gap < 0.85 else (0 if r_gap < 0.95 else -0.5)
                 a.append(["%s >= %s" % (iv, lo), "%s <= %s" % (iv, hi - gap)])
             g = [["%s <= %s%s" % (ov, rs.choice(["2", "3", ""]), iv)], ["%s >= %s" % (ov, rs.choice(["0", "1"]))]][: rs.choice([1, 2])]
             return {"assumptions": a, "guarantees": g, "input_vars": [iv], "output_vars": [ov]}
@@ -730,6 +741,18 @@ def gen_step(rs, view: View, allowed_ops: List[str], weights: Optional[Dict[str,
         if name == "compound_from_strings":
             for k, v in comp().items():
                 A[k] = _lit(v)
+        elif name == "compound_misc":
+            c1 = comp()
+            A["c1"] = _lit(c1)
+            A["c2"] = _lit(comp() if rs.random() < 0.6 else c1)
+            beh = {Var(c1["input_vars"][0]): float(rs.choice([0, 0.5, 1, 2.5, 4, 10])), Var(c1["output_vars"][0]): float(rs.choice([0, 1, 3, 100]))}
+            if rs.random() < 0.15:
+                beh.pop(Var(c1["output_vars"][0]))
+            A["behavior"] = _lit(beh)
+        elif name == "compound_file":
+            A["c1"] = _lit(comp())
+            A["self"] = {"slot": ci}
+            A["file_name"] = _lit("comp.json")
         else:
             A["c1"] = _lit(comp())
             A["c2"] = _lit(comp())
